@@ -1,6 +1,77 @@
-import MotoModel.Model.DiskCli
-import MotoModel.Spec.Dos
+/-
+  C05 — disk file system stays consistent across every history of additions.
+  (first layer: allocation arithmetic, refusal for lack of blocks, reserved blocks, chains)
+-/
+import MotoModel.Proofs.DiskChain
 namespace Moto.C05
 open Moto Moto.Disk
-theorem placeholder : computeRequiredSlots 0 255 = (0, 255) := rfl
+
+/-- **C05 (free + used + reserved = 160)** for the table of every side the tools can read -/
+theorem usage_sum_160 (sd : Side) (bat : List Nat) (h : getBat sd = .ok bat) :
+    (computeUsage bat).used + (computeUsage bat).reserved + (computeUsage bat).free = 160 := by
+  rw [usage_sum, getBat_length sd bat h]
+
+/-- **C05 (reserved blocks are never handed out)**: whatever the table, the blocks chosen for a
+    new file are free blocks, hence never a reserved one (table, catalog, extra reserved blocks) -/
+theorem never_reserved (bat : List Nat) (k : Nat) : ∀ b ∈ chosen bat k, isFree (bat.getD b 0) = true ∧ isReserved (bat.getD b 0) = false :=
+  fun b hb => ⟨(chosen_free bat k b hb).2, chosen_never_reserved bat k b hb⟩
+
+theorem reserved_blocks_of_the_tool : 40 ∈ Gen.Disk.reservedBlocks ∧ 41 ∈ Gen.Disk.reservedBlocks := by decide
+
+/-- **C05 (refused for lack of blocks ⇒ nothing changes)**: when `writeFile` refuses a file
+    because the side has too few free blocks, it leaves the side exactly as it was. -/
+theorem refused_blocks_unchanged (sd sd' : Side) (content : Bytes) (name ext : Str) (kind flag : Nat)
+    (h : writeFile sd content name ext kind flag = .raised (.valueError "not.enough.blocks") sd') : sd' = sd := by
+  unfold writeFile at h
+  cases hb : getBat sd with
+  | error e => rw [hb] at h; cases h; rfl
+  | ok bat =>
+    rw [hb] at h
+    simp only [writeFileWith] at h
+    split at h
+    · cases h; rfl
+    · unfold placeFile at h
+      simp only at h
+      cases hf : findSlot _ _ with
+      | error e =>
+        rw [hf] at h
+        simp only [WriteResult.raised.injEq] at h
+        have := findSlot_error _ _ e hf
+        rw [this] at h
+        exact absurd h.1 (by decide)
+      | ok o =>
+        rw [hf] at h
+        cases o with
+        | none =>
+          simp only [WriteResult.raised.injEq, PyErr.valueError.injEq] at h
+          exact absurd h.1 (by decide)
+        | some p => cases h
+
+/-- a file is refused for lack of blocks exactly when fewer free blocks remain than it needs -/
+theorem refused_when_too_few_blocks (sd : Side) (bat : List Nat) (content : Bytes) (name ext : Str) (kind flag : Nat)
+    (hb : getBat sd = .ok bat)
+    (h : (chosen bat (reqBlocks content.length)).length < reqBlocks content.length) :
+    writeFile sd content name ext kind flag = .raised (.valueError "not.enough.blocks") sd := by
+  unfold writeFile
+  rw [hb]
+  simp only [writeFileWith, h, if_true]
+
+/-- the written chain reads back: the statuses `writeFile` links are followed by `walk` exactly -/
+theorem written_chain_reads_back (bat : List Nat) (hlen : bat.length = 160) (n : Nat)
+    (hfit : reqBlocks n ≤ (chosen bat (reqBlocks n)).length) :
+    walk (linkChain bat (chosen bat (reqBlocks n)) (lastSectorsOf n)) ((chosen bat (reqBlocks n)).getD 0 0)
+      = .ok (chosen bat (reqBlocks n)) := by
+  obtain ⟨hb1, hu1, hu8, _, _, _, _⟩ := size_law n
+  generalize hch : chosen bat (reqBlocks n) = ch at hfit ⊢
+  have hne : ch ≠ [] := by
+    intro h; have : ch.length = 0 := by rw [h]; rfl
+    omega
+  obtain ⟨first, rest, hfr⟩ := List.exists_cons_of_ne_nil hne
+  have hlt : ∀ x ∈ ch, x < 160 := fun x hx => hlen ▸ (chosen_free bat _ x (hch ▸ hx)).1
+  have hnd : ch.Nodup := hch ▸ chosen_nodup bat _
+  have hl := linkChain_linked ch bat (lastSectorsOf n) hnd (fun b hb => hlen ▸ hlt b hb)
+  rw [hfr] at hl hlt hnd ⊢
+  simp only [List.getD_cons_zero]
+  exact walk_linked _ first rest _ hu1 hu8 (by rw [linkChain_length]; exact hlen) hl hlt hnd
+
 end Moto.C05
